@@ -24,13 +24,13 @@ Mk(k, p) == CASE k \in {"IO", "EIO"} -> [k |-> k, c |-> Cond, n |-> ""]
               [] k = "INC" -> Inc @@ [n |-> ""]
               [] OTHER -> [k |-> k, n |-> ""]
 
-VARIABLES body, kinds, opens, last, done, res
-vars == <<body, kinds, opens, last, done, res>>
-Init == body = <<>> /\ kinds = <<>> /\ opens = <<>> /\ last = "none" /\ done = FALSE /\ res = [status |-> "none"]
+VARIABLES body, kinds, opens, last, done, res, agree
+vars == <<body, kinds, opens, last, done, res, agree>>
+Init == body = <<>> /\ kinds = <<>> /\ opens = <<>> /\ last = "none" /\ done = FALSE /\ res = [status |-> "none"] /\ agree = TRUE
 
 Prog(b) == [consts |-> <<>>,
-            fns |-> <<[name |-> "main", params |-> <<>>, ret |-> "u8",
-                       body |-> <<[k |-> "V", x |-> "n", t |-> "i32", e |-> I32(0), n |-> ""]>> \o b,
+            fns |-> <<[name |-> "main", params |-> <<>>, ret |-> [k |-> "prim", t |-> "u8"],
+                       body |-> <<[k |-> "V", x |-> "n", ty |-> [k |-> "prim", t |-> "i32"], e |-> I32(0), n |-> ""]>> \o b,
                        res |-> [k |-> "lit", t |-> "u8", v |-> <<7>>]]>>]
 Grow(k) ==
     /\ ~done /\ Len(body) < MaxLen
@@ -42,12 +42,19 @@ Grow(k) ==
                        /\ last' = IF opens[Len(opens)] \in IfKinds THEN "if" ELSE "none"
          [] OTHER -> opens' = opens /\ last' = IF k \in IfKinds THEN "if" ELSE "none"
     /\ body' = Append(body, Mk(k, Len(body) + 1)) /\ kinds' = Append(kinds, k)
-    /\ UNCHANGED <<done, res>>
+    /\ UNCHANGED <<done, res, agree>>
+\* the linear scans the machine uses agree with the declarative definitions (FlatBody's label rule)
+ScansAgree(b) == \A i \in 1..Len(b) :
+                    /\ BlkFast(b, i) = BlockOf(b, i)
+                    /\ (b[i].k \in GotoKinds => TargetFast(b, i) = GotoTarget(b, i))
+                    /\ (b[i].k = "C" => OpenFast(b, i) = OpenerOf(b, i))
+                    /\ (b[i].k \in Openers => EndOf(b, i) = CloseOf(b, i))
 Finish ==
     /\ ~done /\ opens = <<>> /\ (Len(kinds) > 0 => kinds[Len(kinds)] # "LP")
     /\ done' = TRUE
     \* positions shift by one because of the prelude `var n`; the label rule is position independent
     /\ res' = IF RuleAccepts(body) THEN Run(Prog(body), Fuel) ELSE [status |-> "invalid"]
+    /\ agree' = (RuleAccepts(body) => ScansAgree(body))
     /\ UNCHANGED <<body, kinds, opens, last>>
 Next == (\E k \in Kinds : Grow(k)) \/ Finish
 Spec == Init /\ [][Next]_vars
@@ -55,7 +62,10 @@ Spec == Init /\ [][Next]_vars
 \* the machine's own sanity: forward/outward jumps only, output values well formed
 MachineSane == (done /\ res.status \in {"done", "fuel", "ub"}) =>
                   \A i \in 1..Len(res.out) : res.out[i].t = "i32" /\ Len(res.out[i].v) = 4
-NoUB == done => res.status # "ub"
+NoUB == done => res.status \notin {"ub", "stuck", "illegal"}
+\* the machine's monitors: goto forward and outward only, stored values fit their types, non-interference
+Monitors == (done /\ res.status \in {"done", "fuel"}) => res.bad = <<>>
+Scans == agree
 EmitCase == (done /\ res.status = "done") =>
     PrintT(<<"CASE", ToJson([b |-> kinds,
                              out |-> [i \in 1..Len(res.out) |-> res.out[i].v],
